@@ -34,6 +34,27 @@ def _find_block(fn, pred):
     return rec(fn.node.body)
 
 
+def map_one(ctx, fn, stmts, env):
+    """Template-evaluate the statements that turn one scheduler state code into a BackendStatus; returns the stored EnumVals."""
+    from ..symeval import PureInterp, Raised, Unsupported, _Break, _Continue, _Return, Obj
+    interp = PureInterp(ctx)
+    env = dict(env)
+    store = {}
+    env.setdefault("job_states", store)
+    env.setdefault("self", Obj("ops", working_dir="⟦PROJ⟧", accounting_enabled=True, **{"__class__": fn.cls} if fn.cls is not None else {}))
+    try:
+        interp.block(stmts, env, fn.module, 0)
+    except (_Continue, _Break, _Return):
+        pass
+    except Raised as exc:
+        raise MappingError(f"lookup fails: {exc}")
+    except Unsupported as exc:
+        raise MappingError(f"cannot follow: {exc}")
+    js = env.get("job_states")
+    vals = [v for v in (js.values() if isinstance(js, dict) else []) if isinstance(v, EnumVal)]
+    return vals
+
+
 def check_mapping(ctx, rule, fn, table_name, reference, bind, tail_from, sep_hint=None):
     """Evaluate the code->class mapping of `fn` for every documented code and compare with the reference classes."""
     construct = f"{fn.module.relpath}::{fn.qual}"
@@ -46,16 +67,12 @@ def check_mapping(ctx, rule, fn, table_name, reference, bind, tail_from, sep_hin
     for code, (allowed, why) in reference.items():
         env = bind(code, stmts[i])
         try:
-            stores = map_code(ctx.ev, fn.module, stmts[i:], env)
+            vals = map_one(ctx, fn, stmts[i:], env)
         except MappingError as exc:
             rule.violation(f"{construct}::{code}", f"{table_name} code {code!r} ({why}) makes the state lookup fail ({exc}): "
                            "every gwf command crashes while such a job exists", loc(stmts[i], fn.module))
             continue
-        vals = [v for (_t, _k, v) in stores if isinstance(v, EnumVal)]
-        if not vals:
-            got = "UNKNOWN"  # skipped: the id keeps its default / is absent from the map
-        else:
-            got = vals[-1].member
+        got = vals[-1].member if vals else "UNKNOWN"  # skipped: the id keeps its default / is absent from the map
         if got in allowed:
             n_ok += 1
             rule.ok(f"{construct}::{code}", f"{code} -> {got}", loc(stmts[i], fn.module))
@@ -116,8 +133,7 @@ def run(ctx):
     if found:
         stmts, i = found
         try:
-            stores = map_code(ev, fn2.module, stmts[i:], bind_line("|")("CANCELLED by 1234", stmts[i]))
-            vals = [v for (_t, _k, v) in stores if isinstance(v, EnumVal)]
+            vals = map_one(ctx, fn2, stmts[i:], bind_line("|")("CANCELLED by 1234", stmts[i]))
             r1.check(bool(vals) and vals[-1].member == "CANCELLED", f"{fn2.module.relpath}::{fn2.qual}::CANCELLED by",
                      "'CANCELLED by <uid>' is cleaned to CANCELLED", "sacct's 'CANCELLED by <uid>' is not reported as cancelled", fn2.where)
         except MappingError as exc:
@@ -158,12 +174,10 @@ def run(ctx):
         check_mapping(ctx, r1, fn3, "bjobs", REF.LSF, lambda code, st0: bind_lsf(code, stmts[i]),
                       lambda st: st is stmts[i + 1] if i + 1 < len(stmts) else False)
         # empty answer (job not in the queue any more) keeps the default UNKNOWN
-        stores = []
         try:
-            stores = map_code(ev, fn3.module, stmts[i + 1:], bind_lsf("", stmts[i]))
+            vals = map_one(ctx, fn3, stmts[i + 1:], bind_lsf("", stmts[i]))
         except MappingError:
-            stores = [("?", None, EnumVal("x", "ERROR"))]
-        vals = [v for (_t, _k, v) in stores if isinstance(v, EnumVal)]
+            vals = [EnumVal("x", "ERROR")]
         r1.check(not vals or vals[-1].member == "UNKNOWN", f"{fn3.module.relpath}::{fn3.qual}::<empty>", "no record -> UNKNOWN",
                  f"an empty bjobs answer (no record) is reported as {vals[-1].member if vals else '?'}", fn3.where)
     strip_ok = found is not None and any(isinstance(c.func, ast.Attribute) and c.func.attr == "strip" for c in _calls(found[0][found[1]].value))
@@ -266,99 +280,36 @@ def run(ctx):
              "only tracked ids are kept", lo.where)
 
     # ------------------------------------------------------------------ R3 Slurm precedence, batching
-    r3 = ctx.rule("R3", "Slurm: accounting only when enabled, live queue overrides accounting, batches cover all ids", min_instances=3)
-    gjs = idx.func("gwf.backends.slurm:SlurmOps.get_job_states")
-    res = ctx.resolver
-    # functions of the module that reach a sacct query
-    sacct_fns = set()
-    for f in idx.functions.values():
-        if f.module.name != "gwf.backends.slurm":
-            continue
-        _v, effs, _u = res.reach(f)
-        if any(e.kind == "SCHED_QUERY" and e.detail == "sacct" for e in effs):
-            sacct_fns.add(f.key)
-    guard_ok = True
-    n_sites = 0
-    squeue_line = sacct_line = None
-    for n in walk_no_nested(gjs.node):
-        if isinstance(n, ast.Call):
-            callees = [c for c in res.callees(n, gjs, {}) if isinstance(c, FuncInfo)]
-            if any(c.key in sacct_fns and c.key != gjs.key for c in callees):
-                n_sites += 1
-                sacct_line = n.lineno
-                guarded = False
-                for a in ancestors(n):
-                    if isinstance(a, ast.If) and ast.unparse(a.test) == "self.accounting_enabled" and any(n in ast.walk(b) for b in a.body):
-                        guarded = True
-                if not guarded:
-                    guard_ok = False
-                    r3.violation(f"{gjs.module.relpath}::{gjs.qual}::sacct-guard", "the accounting database is queried without testing accounting_enabled: "
-                                 "with accounting disabled sacct is still consulted", loc(n, gjs.module))
-            if any(c.key.endswith("get_job_states_from_squeue") for c in callees):
-                squeue_line = n.lineno
-    if guard_ok:
-        r3.check(n_sites >= 1 or gjs.key not in sacct_fns, f"{gjs.module.relpath}::{gjs.qual}::sacct-guard",
-                 f"{n_sites} accounting call site(s), all under `if self.accounting_enabled`",
-                 "sacct is reachable from get_job_states but no guarded call site was found", gjs.where)
-    if gjs.key not in sacct_fns:
-        r3.violation(f"{gjs.module.relpath}::{gjs.qual}::sacct", "accounting is never consulted: failed/cancelled jobs that left the queue are not reported", gjs.where)
-    # other callers of sacct functions
-    for f in idx.functions.values():
-        if f.key in sacct_fns or f.key == gjs.key:
-            continue
-        for n in walk_no_nested(f.node):
-            if isinstance(n, ast.Call) and any(isinstance(c, FuncInfo) and c.key in sacct_fns and c.module.name == "gwf.backends.slurm"
-                                               for c in res.callees(n, f, {})):
-                if isinstance(n.func, ast.Attribute) and n.func.attr.startswith("get_job_states_from_sacct"):
-                    r3.violation(f"{f.module.relpath}::{f.qual}", "sacct is queried from outside the guarded path", loc(n, f.module))
-    # squeue wins: its update comes last on the same dict
-    order_ok = squeue_line is not None and (sacct_line is None or squeue_line > sacct_line)
-    upd = [n for n in walk_no_nested(gjs.node) if isinstance(n, ast.Call) and isinstance(n.func, ast.Attribute) and n.func.attr == "update"]
-    same_dict = len({dotted(u.func.value) for u in upd}) == 1 and len(upd) >= 2
-    rets = [n for n in walk_no_nested(gjs.node) if isinstance(n, ast.Return) and n.value is not None]
-    ret_same = rets and upd and all(dotted(r.value) == dotted(upd[0].func.value) for r in rets)
-    r3.check(order_ok and same_dict and ret_same, f"{gjs.module.relpath}::{gjs.qual}::precedence",
-             "accounting states are written first, live queue states overwrite them, that dict is returned",
-             "the live queue (squeue) does not take precedence over the accounting database: stale accounting data would hide a job that is queued or running again",
-             gjs.where)
-    squeue_unguarded = squeue_line is not None and not any(
-        isinstance(a, ast.If) for n in walk_no_nested(gjs.node) if isinstance(n, ast.Call) and n.lineno == squeue_line for a in ancestors(n))
-    r3.check(squeue_unguarded, f"{gjs.module.relpath}::{gjs.qual}::squeue", "the live queue is always consulted",
-             "the live queue is not consulted unconditionally", gjs.where)
-    # batching
-    bf = idx.func("gwf.backends.slurm:SlurmOps.get_job_states_from_sacct_batched")
-    bcon = f"{bf.module.relpath}::{bf.qual}"
-    loops = [n for n in walk_no_nested(bf.node) if isinstance(n, ast.For)]
-    ok = False
-    detail = "no `for i in range(0, len(ids), batch)` loop with slice ids[i:i+batch]"
-    for lp in loops:
-        it = lp.iter
-        if isinstance(it, ast.Call) and idx.canon(it.func, bf.module) == "builtins.range" and len(it.args) == 3 and isinstance(lp.target, ast.Name):
-            start, stop, step = it.args
-            ids = bf.positional_params()[1]
-            if isinstance(start, ast.Constant) and start.value == 0 and ast.unparse(stop) == f"len({ids})":
-                i = lp.target.id
-                stp = ast.unparse(step)
-                slices = [n for n in ast.walk(lp) if isinstance(n, ast.Subscript) and isinstance(n.slice, ast.Slice) and dotted(n.value) == ids]
-                for s in slices:
-                    lo_ = ast.unparse(s.slice.lower) if s.slice.lower else None
-                    up_ = ast.unparse(s.slice.upper).replace(" ", "") if s.slice.upper else None
-                    if lo_ == i and up_ in (f"{i}+{stp}", f"{stp}+{i}") and s.slice.step is None:
-                        ok = True
-                    else:
-                        detail = f"batch slice `{ast.unparse(s)}` with loop `{ast.unparse(it)}` does not cover ids[{i}:{i}+{stp}]"
-                # each batch result is merged
-                merged = any(isinstance(c.func, ast.Attribute) and c.func.attr == "update" for c in _calls(lp))
-                if ok and not merged:
-                    ok = False
-                    detail = "batch results are not merged into the returned map"
-    r3.check(ok, bcon, "batches ids[i:i+batch] for i in range(0, len(ids), batch) cover every tracked id exactly once",
-             f"accounting batches do not cover all tracked ids: {detail}", bf.where)
-    # empty batch guard in the single query is fine; joined ids
-    jn = any(isinstance(n, ast.Call) and isinstance(n.func, ast.Attribute) and n.func.attr == "join" and n.args and
-             dotted(n.args[0]) == fn2.positional_params()[1] for n in ast.walk(fn2.node))
-    r3.check(jn, f"{fn2.module.relpath}::{fn2.qual}::jobs", "all ids of the batch are passed to sacct --jobs",
-             "the accounting query does not name all ids of its batch", fn2.where)
+    r3 = ctx.rule("R3", "Slurm: accounting only when enabled, live queue overrides accounting, batches cover all ids", min_instances=4)
+    from .evalhelpers import eval_slurm_states, S
+    N = 2100
+    res_on, err, queries, squeue_calls, gjs = eval_slurm_states(ctx, N, True)
+    gcon = f"{gjs.module.relpath}::{gjs.qual}"
+    if err is not None:
+        r3.violation(gcon, f"the Slurm state query cannot be followed with the scheduler commands replaced by symbolic answers ({err})", gjs.where)
+    else:
+        asked = [j for q in queries for j in q]
+        missing = sorted(set(str(i) for i in range(1, N + 1)) - set(asked), key=int)
+        dup = len(asked) - len(set(asked))
+        r3.check(not missing and not dup and queries, gcon + "::batches",
+                 f"{len(queries)} accounting queries of sizes {[len(q) for q in queries]} cover all {N} tracked ids exactly once",
+                 f"with {N} tracked jobs the accounting queries have sizes {[len(q) for q in queries]}: {len(missing)} ids are never queried (first: {missing[:3]}), "
+                 f"{dup} are queried twice - jobs beyond the first batch silently fall back to the file-based decision", gjs.where)
+        r3.check(res_on.get("1") == S("RUNNING"), gcon + "::precedence", "a job both in the accounting database (FAILED) and in the live queue (R) is RUNNING",
+                 f"a job that accounting reports as FAILED but that is in the live queue as running is reported as {res_on.get('1')}: the live queue must take precedence "
+                 "(stale accounting data would hide a job that is queued or running again)", gjs.where)
+        r3.check(res_on.get("2") == S("COMPLETED") and res_on.get(str(N)) == S("FAILED"), gcon + "::accounting-used", "jobs that left the queue get their state from accounting",
+                 f"jobs that left the queue are reported as {res_on.get('2')} / {res_on.get(str(N))} instead of their accounting state (COMPLETED / FAILED)", gjs.where)
+        r3.check("999999" not in res_on, gcon + "::own-jobs", "queue lines of untracked jobs are ignored", "a job gwf does not track (another user's) enters the state map", gjs.where)
+        r3.check(len(squeue_calls) == 1, gcon + "::squeue", "the live queue is consulted once", f"the live queue is consulted {len(squeue_calls)} times", gjs.where)
+    res_off, err2, queries2, squeue2, _m = eval_slurm_states(ctx, 5, False)
+    if err2 is not None:
+        r3.violation(gcon + "::accounting-off", f"cannot follow the query with accounting disabled ({err2})", gjs.where)
+    else:
+        r3.check(not queries2, gcon + "::sacct-guard", "with accounting disabled sacct is never run",
+                 f"with accounting disabled the accounting database is still queried ({len(queries2)} sacct call(s))", gjs.where)
+        r3.check(res_off == {"1": S("RUNNING")} and len(squeue2) == 1, gcon + "::accounting-off", "with accounting disabled the state comes from the live queue only",
+                 f"with accounting disabled the state map is {res_off}", gjs.where)
 
     # ------------------------------------------------------------------ R4 identity across pool restarts (known design gap D23)
     r4 = ctx.rule("R4", "a tracked id denotes the same job across invocations")
